@@ -28,6 +28,7 @@ type C17Pub struct {
 }
 
 type C17Case struct {
+	Transport
 	NTopics int      `json:"ntopics"`
 	SubQoS  [][]byte `json:"subqos"` // per subscriber: granted QoS per topic
 	Pubs    []C17Pub `json:"pubs"`
@@ -89,6 +90,7 @@ func runC17(c C17Case) (res c17result) {
 	if err != nil {
 		return c17result{Fail: "fixture: " + err.Error()}
 	}
+	c.Transport.apply(b)
 	defer b.Shutdown()
 	topic := func(i int) string { return fmt.Sprintf("s/%d", i) }
 	subs := make([]*c17sub, len(c.SubQoS))
@@ -282,6 +284,7 @@ func genC17(t *rapid.T) C17Case {
 		}
 		c.Pubs = append(c.Pubs, pb)
 	}
+	c.Transport = genTransport(t)
 	return c
 }
 
